@@ -36,6 +36,65 @@ def run(ctx, rep):
     ev = Evaluator(prog)
     r1_r2(prog, ev, rep)
     r3(prog, ev, rep)
+    r4(prog, ev, rep)
+
+
+def _walkall(x):
+    if isinstance(x, dict):
+        yield x
+        for v in x.values():
+            yield from _walkall(v)
+    elif isinstance(x, list):
+        for v in x:
+            yield from _walkall(v)
+
+
+def r4(prog, ev, rep):
+    rep.rule("C14-R4", "the engine does not know the extension names: outside `impl Queryable for <type>` no string literal or string "
+             "pattern equals in / nin / none_of / any_of / subset_of (so no call is renamed, negated or special-cased on its way "
+             "to extension_custom), and every TestFunction::Custom is built from the name as written and the arguments as parsed",
+             floor=2)
+    NAMES = {"in", "nin", "none_of", "any_of", "subset_of"}
+    conc = set(prog.concrete_view_bodies())
+    n = 0
+    done0 = set()
+    for p in sorted(prog.bodies):
+        if prog.is_expansion(p) or p in conc or prog.owner_fn(p) in conc:
+            continue
+        n += 1
+        for x in _walkall(prog.bodies[p]["thir"]["root"]):
+            if x.get("k") in ("Constant", "Lit"):
+                v = x.get("value", x.get("v"))
+                if isinstance(v, str) and v.strip('"') in NAMES and (x.get("str") or x.get("ty", "").endswith("str") or x.get("k") == "Lit"):
+                    if (p, v) in done0:
+                        continue
+                    done0.add((p, v))
+                    rep.bad("C14-R4", "%s|mentions:%s" % (prog.owner_fn(p), v.strip('"')), prog.loc_of(p),
+                            "`%s` mentions the extension name `%s`: the generic engine special-cases an extension function "
+                            "(a call that is renamed or negated on the way no longer answers null -> false for missing or non-array arguments)" % (p, v.strip('"')))
+    rep.ok("C14-R4", "name-census", "-", "%d bodies outside the Queryable implementations examined" % n)
+    # constructions of Custom
+    M_ = "crate::parser::model::"
+    cons = 0
+    done = set()
+    for p in sorted(prog.bodies):
+        if prog.is_expansion(p) or "::{closure#" in p:
+            continue
+        t = ev.summary(p)
+        for x in subterms(t):
+            if x.k == "adt" and x.a[0] == M_ + "TestFunction" and x.a[1] == "Custom":
+                if (p, str(x)) in done:
+                    continue
+                done.add((p, str(x)))
+                cons += 1
+                fd = dict(x.a[2])
+                nm = fd.get("0")
+                okn = nm is not None and nm.k == "call" and nm.a[0].rsplit("::", 1)[-1] in ("to_string", "to_owned", "from", "into") and len(nm.a) == 2 \
+                    and nm.a[1].k in ("param", "var", "proj", "field")
+                rep.check(okn, "C14-R4", "%s|Custom-name" % p, prog.loc_of(p), "name copied from the parsed text",
+                          "TestFunction::Custom is built with the name `%s`, not the name as written" % nm)
+    if cons == 0:
+        rep.unrecognised("C14-R4", "Custom-construction", "-", "no construction of TestFunction::Custom found")
 
 
 def is_null(t):
